@@ -282,6 +282,24 @@ def run(ctx):
                         if shown != want_rows:
                             res.violations.append(vlib.Violation("the rows shown at --threshold=%s are not the items whose JSON v2 levelOfConcern is >= the threshold" % t, inp,
                                                                  expected=want_rows, observed=shown))
+        # every presentation option that gitconfig can supply instead of the command line (sizer.names, sizer.threshold,
+        # sizer.jsonVersion, sizer.progress) gives, in every format, the bytes the command-line spelling gives
+        nsrc = 0
+        for fmt in ([], ["-v"], ["--json"], ["-j", "--json-version=2"], ["--json", "--json-version=1"]):
+            for style in ("hash", "none", "full", "sha-1"):
+                for more_cfg, more_cli in (([], []), ([("sizer.threshold", "0.5")], ["--threshold=0.5"]), ([("sizer.jsonVersion", "2")], ["--json-version=2"])):
+                    if more_cli[:1] == ["--json-version=2"] and any(a.startswith("--json-version") for a in fmt):
+                        continue
+                    rca, outa, erra, _ = eng.run_fake(sc, order, [], [], extra_args=more_cli + fmt + ["--names=" + style, "--no-progress"])     # a command-line option after it outranks gitconfig too
+                    rcb, outb, errb, _ = eng.run_fake(sc, order, [], [], config=[("sizer.names", style)] + more_cfg, extra_args=fmt + ["--no-progress"])
+                    nsrc += 1
+                    res.case(("option-source", tuple(fmt), style, tuple(more_cli)), True)
+                    if (rca, outa) != (rcb, outb):
+                        res.violations.append(vlib.Violation("options taken from gitconfig give a different output than the same options on the command line",
+                                                             {"format": fmt, "gitconfig": [("sizer.names", style)] + more_cfg, "command line": more_cli + ["--names=" + style]},
+                                                             expected={"rc": rca, "stdout": outa[:500].decode("latin1")},
+                                                             observed={"rc": rcb, "stdout": outb[:500].decode("latin1"), "stderr": errb[:200].decode("latin1")}))
+        res.coverage_extra["option_source_pairs"] = nsrc
         # the threshold in force is the one of the LAST threshold option, also when an option is given again after another one
         fam = [["--verbose"], ["-v"], ["--no-verbose"], ["--critical"], ["--threshold=0"], ["--threshold=1000"], ["--threshold=0.5"], ["--threshold=1e6"],
                ["--verbose=false"], ["--critical=false"]]
